@@ -12,7 +12,7 @@ from symx.harness import Session
 from symx.scalar import SymComplex, SymReal
 
 from . import amptools as AT
-from .common import EPS, facts, far, far_c, prove_close_poly, tensor_of, term_of
+from .common import EPS, facts, far, far_c, prove_close_poly, simp, tensor_of, term_of
 
 PID = "C05"
 LEVEL = "translation_validation"
@@ -90,6 +90,7 @@ def jobs(tier, seed):
     for m in models:
         for st in ("cached_amp", "cached_shape", "base_factor"):
             out.append(("strategy", m, st))
+        out.append(("cached_int", m))
     return out
 
 
@@ -286,6 +287,49 @@ def job_strategy(ss, cfg, strategy):
         prove_close_poly(ss, "strategy.density[%s,%s,%d]" % (cfg, strategy, i), g, b, EPS, 2, key="strategy." + strategy, payload=pay, timeout=90,
                  describe="density of the %s strategy = density of plain eager evaluation for all couplings (tolerance 1e-9, every real coupling component in [-2, 2])" % strategy)
     ss.concrete("strategy.model_class[%s,%s]" % (cfg, strategy), type(amp1).__name__ != type(amp0).__name__, key="strategy.vacuity", payload=dict(kind="strategy_class"), describe="a different amplitude-model class is really in use (%s)" % type(amp1).__name__)
+
+
+CACHED_INT_WEIGHTS = [1.5, -0.75, 0.5]
+
+
+def job_cached_int(ss, cfg):
+    """the cached-integral likelihood's normalisation: Re sum_ij P_ij M_ij with M = build_int_matrix(decay group, MC sample,
+    event weights) and P = build_params_matrix equals sum_k w_k f(y_k), for all couplings and all (signed) event weights"""
+    from tf_pwa.experimental import opt_int
+
+    amp, config = AT.build_model(getattr(AT, cfg))
+    n = 2
+    data = AT.phsp_data(config, n)
+    # the matrix is built once, at the (concrete, non-zero) parameter values the model has at that moment, and re-used
+    # for every later parameter point: exactly the caching the strategy performs
+    amp.vm.rp2xy_all()
+    for i_, nm_ in enumerate(AT.coupling_names(amp.vm)):
+        amp.vm.variables[nm_].assign(tensor_of(SymReal(T.const([0.75, -0.5, 1.25, 0.625][i_ % 4], "R"))))
+    dec = amp.decay_group
+    ws = [SymReal(T.const(v, "R")) for v in CACHED_INT_WEIGHTS[:n]]
+    index, mat = opt_int.build_int_matrix(dec, data, weight=tensor_of(ws))
+    th = AT.symbolize_couplings(amp, cartesian=True)
+    for x in th.values():
+        S.assume(x >= -2)
+        S.assume(x <= 2)
+    # signed, dyadic event weights (background-subtracted / NLO samples carry negative weights)
+    dens = [SymReal(term_of(e)) for e in amp(data).arr.reshape(-1)]
+    ref = dens[0] * ws[0]
+    for k in range(1, n):
+        ref = ref + dens[k] * ws[k]
+    pm = opt_int.build_params_matrix(dec)
+    import tensorflow as tf
+
+    tot = tf.math.real(tf.reduce_sum(pm * tf.stack([tf.stack(r) for r in mat])))
+    got = term_of(tot.arr.reshape(-1)[0])
+    F = facts()
+    got = simp(F, SymReal(got)).t
+
+    def pay(m):
+        return dict(kind="cached_int", cfg=cfg, params=AT.model_params(amp, m, cartesian=True), weights=CACHED_INT_WEIGHTS[:n])
+
+    prove_close_poly(ss, "strategy.cached_int.integral[%s]" % cfg, got, ref.t, EPS, 2, key="strategy.cached_int", payload=pay, timeout=120,
+                     describe="cached integral Re sum P_ij M_ij = sum_k w_k f(y_k) for all couplings (components in [-2,2]); event weights signed (1.5, -0.75)")
 
 
 def run_job(job):
